@@ -79,9 +79,10 @@ fn main() {
 			let post: Option<orch::Post<'_>> = if prop == "C01" && args.worker.is_none() && args.replay.is_none() {
 				Some(Box::new(|cov, viols| {
 					let exe = std::env::current_exe().expect("exe");
-					let out = std::process::Command::new(exe).args(["C01", "--real-leg"]).stdin(std::process::Stdio::null()).output();
-					let Ok(o) = out else {
-						cov.insert("keyboard_real_leg".into(), serde_json::json!("not run"));
+					let mut cmd = std::process::Command::new(exe);
+					cmd.args(["C01", "--real-leg"]);
+					let Some(o) = orch::output_with_timeout(cmd, 120) else {
+						cov.insert("keyboard_real_leg".into(), serde_json::json!("not completed within its wall limit"));
 						return;
 					};
 					let text = String::from_utf8_lossy(&o.stdout).to_string();
